@@ -13,7 +13,7 @@ RULE = ("for each row of the Doc 9871 field table (BDS 1,0 1,7 4,0 4,4 4,5 5,0 5
         "(where exported), as pyModeS.decoder.bds.bdsXX.<name>, and through the deprecated aliases; oracle: None iff status clear, else "
         "(two's-complement | unsigned) x LSB + offset, angles mod 360; the result must be identical across contexts; cap17: all single bits and random "
         "24-bit masks. non-trivial = sign bit set, raw at 0/max, or status clear with raw != 0"
-        ' Also: one context per field that is constant over the sweep, the frame passed as numpy.str_ and as a user str subclass, the list returned by cap17 edited by the caller before the next call.')
+        ' Also: one context per field that is constant over the sweep, the frame passed as numpy.str_ and as a user str subclass, the list returned by cap17 edited by the caller before the next call, and more than 2^20 distinct frames decoded by one process (leg volume).')
 ASSUMPTIONS = ["field table ref/doc9871.py written from ICAO Doc 9871 (2nd ed.) tables A-2-16..A-2-96", "float results compared to 1e-9 absolute"]
 
 ROWS = D.FIELDS
@@ -135,7 +135,48 @@ def chk_cap17(case, note):
     return None
 
 
+def enum_volume(ctx):
+    # one process decodes more than 2^20 distinct frames, field after field (a receiver running for a few hours); one case = the whole run,
+    # so that a stored failing case replays with its history
+    per = 33000 if ctx.tier == "quick" else 70000
+    for k in range(ctx.nshards):
+        if ctx.mine(k):
+            yield {"n": per, "ctx_seed": ctx.rng("vol", k).getrandbits(40)}
+
+
+def chk_volume(case, note):
+    done = 0
+    for ri, row in enumerate(ROWS):
+        reg, name, ti, sb, sg, first, last, lsb, off, kind = row
+        fname, fn = fn_pair(row)[0]
+        nbits = last - first + 1
+        x = case["ctx_seed"] + ri
+        for k in range(case["n"]):
+            x = (x * 6364136223846793005 + 1442695040888963407) & 0xFFFFFFFFFFFFFFFF
+            y = (x ^ (x >> 29)) * 0xBF58476D1CE4E5B9 & 0xFFFFFFFFFFFFFFFF
+            mb = y >> 8
+            raw = (mb >> (56 - last)) & ((1 << nbits) - 1)
+            status = (mb >> (56 - sb)) & 1 if sb is not None else 1
+            sign = (mb >> (56 - sg)) & 1 if sg is not None else 0
+            msg = "%02X%06X%014X%06X" % (0xA0 | (x & 7), (x >> 3) & 0xFFFFFF, mb, (x >> 30) & 0xFFFFFF)
+            r = call(fn, msg)
+            done += 1
+            if r[0] != "ok":
+                return "%s(%s) raised %r (distinct frame number %d decoded by this process in this run)" % (fname, msg, r[1:], done)
+            v = r[1] if ti is None else (r[1][ti] if isinstance(r[1], tuple) and len(r[1]) == 2 else "not a pair: %r" % (r[1],))
+            exp = D.expected(row, raw, status, sign)
+            if not same(v, exp):
+                return "%s(%s)%s = %r (distinct frame number %d of this run); Doc 9871: MB bits %d-%d raw %d, status %s, sign %s -> %r" % (
+                    fname, msg, "" if ti is None else "[%d]" % ti, v, done, first, last, raw, status if sb else "-", sign if sg else "-", exp)
+        note.nt(True, key=["volume", ri, case["n"]])
+    note.evals = done
+    note.cls("volume")
+    return None
+
+
 LEGS = [
     Leg("fields", chk_field, enum=enum_fields, exhaustive=True, doc="every raw value x status x sign of all 34 fields, random contexts"),
     Leg("cap17", chk_cap17, enum=enum_cap17, exhaustive=False, doc="GICB capability bits -> register list"),
+    Leg("volume", chk_volume, enum=enum_volume, exhaustive=False, shards_quick=1, shards_thorough=2,
+        doc="more than 2^20 distinct random frames decoded by one process (34 fields x 33 000 frames), each judged against the field table"),
 ]
